@@ -182,8 +182,9 @@ def run_history(case, ctx):
                     failed = res.out[-100:]          # refusing such a name is fine - as long as nothing stored is disturbed
             elif op == "asm":
                 nm = "P%d" % step
-                if shadow and r.random() < 0.35:
-                    nm = r.choice(shadow)["name"].upper()[:8]          # a program named like a file the image already holds
+                plain = [x for x in shadow if x["name"].isascii() and x["name"].isalnum()]     # NAM takes letters and digits
+                if plain and r.random() < 0.35:
+                    nm = r.choice(plain)["name"].upper()[:8]          # a program named like a file the image already holds
                 org = r.choice([0x1000, 0x2000, 0x0E00])
                 v = r.randrange(256)
                 open(os.path.join(d, "p.asm"), "w").write(ASM_T % (nm, org, v))
